@@ -172,6 +172,7 @@ def main(argv):
     # ---- 3b. the property also speaks about other components: run their harness through this property's checker
     for extra_stage in ([] if a.replay else cfg.get("also", [])):
         sub = dict(cfg)
+        sub["thm_scope"] = None  # the theorem-scope counter speaks about the main case type only
         sub.update(extra_stage)
         nn = extra_stage.get("n_quick", 150) if a.tier == "quick" else extra_stage.get("n_thorough", 3000)
         wd2 = os.path.join(workdir, "also_" + extra_stage["harness"])
